@@ -130,25 +130,13 @@ var fields = map[string]field{
 		atoi(b, int64(e.Response.StatusCode), 0)
 	},
 	"$response_time_ms": func(b *bytes.Buffer, e *Event) {
-		d := e.End.Sub(e.Start).Nanoseconds()
-		s, us := d/int64(time.Second), d%int64(time.Second)/int64(time.Millisecond)
-		atoi(b, s, 0)
-		b.WriteRune('.')
-		atoi(b, us, 3)
+		seconds(b, e.End.Sub(e.Start), time.Millisecond, 3)
 	},
 	"$response_time_us": func(b *bytes.Buffer, e *Event) {
-		d := e.End.Sub(e.Start).Nanoseconds()
-		s, us := d/int64(time.Second), d%int64(time.Second)/int64(time.Microsecond)
-		atoi(b, s, 0)
-		b.WriteRune('.')
-		atoi(b, us, 6)
+		seconds(b, e.End.Sub(e.Start), time.Microsecond, 6)
 	},
 	"$response_time_ns": func(b *bytes.Buffer, e *Event) {
-		d := e.End.Sub(e.Start).Nanoseconds()
-		s, ns := d/int64(time.Second), d%int64(time.Second)/int64(time.Nanosecond)
-		atoi(b, s, 0)
-		b.WriteRune('.')
-		atoi(b, ns, 9)
+		seconds(b, e.End.Sub(e.Start), time.Nanosecond, 9)
 	},
 	"$time_unix_ms": func(b *bytes.Buffer, e *Event) {
 		atoi(b, e.End.UnixNano()/int64(time.Millisecond), 0)
@@ -313,24 +301,40 @@ func hostport(s string) (host, port string) {
 	return host, port
 }
 
+// seconds writes the duration d as seconds with a fraction of the given
+// number of digits in the given unit. The fraction is truncated. A negative
+// duration has one sign in front of the number: -1.5s is "-1.500" and not
+// "-1.-500".
+func seconds(b *bytes.Buffer, d, unit time.Duration, digits int) {
+	s, frac := int64(d/time.Second), int64(d%time.Second/unit)
+	if d < 0 {
+		b.WriteByte('-')
+		s, frac = -s, -frac
+	}
+	atoi(b, s, 0)
+	b.WriteByte('.')
+	atoi(b, frac, digits)
+}
+
 // atoi is a replacement for strconv.Atoi/strconv.FormatInt
 // which does not alloc.
 func atoi(b *bytes.Buffer, i int64, pad int) {
-	var flag bool
-	if i < 0 {
-		flag = true
-		i = -i
+	// format the magnitude as an unsigned number:
+	// -i overflows for the smallest int64
+	flag, u := i < 0, uint64(i)
+	if flag {
+		u = -u
 	}
 
 	// format number
-	// 2^63-1 == 9223372036854775807
+	// 2^63 == 9223372036854775808
 	var d [128]byte
 	n, p := len(d), len(d)-1
-	for i >= 0 {
-		d[p] = byte('0') + byte(i%10)
-		i /= 10
+	for {
+		d[p] = byte('0') + byte(u%10)
+		u /= 10
 		p--
-		if i == 0 {
+		if u == 0 {
 			break
 		}
 	}
